@@ -30,6 +30,8 @@ def run(tier, res):
     n_aux = 16 if tier == "quick" else 150
     if hasattr(isimip_corr, "correspondence_aux"):
         mismatches += isimip_corr.correspondence_aux(rng, n_aux, tier, res)
+    if hasattr(isimip_corr, "correspondence_location"):
+        mismatches += isimip_corr.correspondence_location(rng, 6 if tier == "quick" else 40, tier, res)
     res.extra["mismatches"] = len(mismatches)
     if mismatches:
         res.tie_broken.append(f"correspondence DrvIsimip: {len(mismatches)} mismatches, first: {str(mismatches[0])[:1500]}")
